@@ -409,3 +409,101 @@ def rule_take(ctx, prop):
                                   f"comments are deleted from the output", f.loc(t["sp"]), cfg)
         rep.floor("take_*_comments call sites", n, 6, cfg)
     return rep
+
+
+# ---------------------------------------------------------------------------------------------------------------------------
+# R-TRIALSHAPE: the trial layouts that are made with a bounded-cost shape (`with_infinite_width()`: everything nested fits on one
+# line, linear time; `with_simple_heuristics()`: no further trials below) keep that shape. A reference through time, frozen in
+# frozen_trialshape.json: per (function, formatter) the number of call sites whose Shape argument derives from one of the two.
+TRIAL_FILE = os.path.join(os.path.dirname(os.path.abspath(__file__)), "frozen_trialshape.json")
+BOUNDED = ("with_infinite_width", "with_simple_heuristics")
+
+
+def _shape_chain(f, t):
+    out = set()
+    for a in t["args"]:
+        if is_const(a):
+            continue
+        if not f.local_ty(op_place(a)["l"]).replace("&", "").endswith("shape::Shape"):
+            continue
+        stack, seen = [a], set()
+        while stack:
+            o = stack.pop()
+            for r in provenance(f, o, through=None, into_aggs=False):
+                if r[0] == "call" and r[2] not in seen:
+                    seen.add(r[2])
+                    out.add(r[1].split("::")[-1])
+                    t2 = f.blocks[r[2]]["term"]
+                    if t2["args"] and not is_const(t2["args"][0]):
+                        stack.append(t2["args"][0])
+    return out
+
+
+def trial_shapes(prog):
+    from r_raw import FORMATTERS
+    from inline import known_names
+    known = known_names("stylua_lib")
+    out = {}
+    for f in prog.fns("stylua_lib"):
+        if not f.path.startswith("formatters::"):
+            continue
+        base = f.path.split("::{closure")[0]
+        if known is not None and base not in known:
+            continue
+        for b, t in f.calls():
+            c = callee(t)
+            if not FORMATTERS.search(c) or CHEAP.search(c):
+                continue
+            if _shape_chain(f, t) & set(BOUNDED):
+                k = (base, c.split("::<")[0].split("::")[-1])
+                out[k] = out.get(k, 0) + 1
+    return out
+
+
+def rule_trial_shape(ctx, prop):
+    rep = Report(prop, "R-TRIALSHAPE", "every formatter call that is given a bounded-cost shape on the pinned tree (derived from "
+                                       "with_infinite_width() / with_simple_heuristics(): a trial layout that is measured, not kept) still is: "
+                                       "a trial made at the real width lays out everything nested in it for real, once per nesting level")
+    if not rep.anchor(os.path.exists(TRIAL_FILE), "frozen_trialshape.json"):
+        return rep
+    frozen = json.load(open(TRIAL_FILE))
+    for cfg, prog in ctx.programs.items():
+        ref = frozen.get(cfg) or {}
+        cur = trial_shapes(prog)
+        n = 0
+        for key, want in sorted(ref.items()):
+            fn, c = key.split(" | ")
+            if prog.fn("stylua_lib", fn) is None:
+                rep.note(f"@{cfg}: {fn} not found (trial-shape row not evaluated)")
+                continue
+            n += 1
+            have = cur.get((fn, c), 0)
+            ok = have >= want
+            rep.inst(f"stylua_lib::{fn} {c} calls with a bounded-cost shape", {"now": have, "frozen": want}, cfg, ok=ok)
+            if not ok:
+                rep.violation(f"stylua_lib::{fn} trial-layout-at-real-width callee={c} now={have} frozen={want}",
+                              f"{fn} made {want} call(s) of {c} with a shape derived from with_infinite_width() / with_simple_heuristics() "
+                              f"on the pinned tree and makes {have} now: the single-line trial is laid out at the real width, so every "
+                              f"function body / table nested in it is formatted in full during the trial and again afterwards - time "
+                              f"doubles with each nesting level", prog.fn("stylua_lib", fn).loc(), cfg)
+        rep.floor("frozen bounded-cost trial sites still present", n, max(1, len(ref) - 3), cfg)
+    return rep
+
+
+def freeze_trial():
+    import extract
+    import facts
+    import inline
+    files, _ = extract.extract(extract.THOROUGH, verbose=False)
+    out = {}
+    for c in extract.THOROUGH:
+        prog = inline.transparent_view(facts.Program(c, files[c]))
+        cur = trial_shapes(prog)
+        out[c] = {f"{fn} | {cal}": n for (fn, cal), n in sorted(cur.items())}
+        print(c, sum(cur.values()))
+    with open(TRIAL_FILE, "w") as fh:
+        json.dump(out, fh, indent=1, sort_keys=True)
+
+
+if __name__ == "__main__" and "--freeze-trial" in __import__("sys").argv:
+    freeze_trial()
